@@ -7,10 +7,10 @@ EXTENDS NullGuard, IOUtils
 VARIABLE l
 Tr == ndJsonDeserialize(IOEnv.TRACE)
 
-IsSoft(e)  == /\ e.ended = "returned" /\ e.changed = FALSE
+IsSoft(e)  == /\ e.ended = "returned" /\ e.changed = FALSE /\ PrefixOK(e.prefix)
               /\ (Expected(e.row, e.variant) = "ANY" \/ (e.rv = Expected(e.row, e.variant) /\ e.heapdelta = 0))
               /\ e.diag \in {"none", "warning", "debug"}
-IsFatal(e) == /\ e.ended = "exit" /\ e.diag = "fatal" /\ e.status # 0
+IsFatal(e) == /\ e.ended = "exit" /\ e.diag = "fatal" /\ e.status # 0 /\ e.prefix = "ok"
 Accept(e)  == /\ e.variant \in Variants(e.row)
               /\ \/ "soft" \in Allowed(e.row, e.level) /\ IsSoft(e)
                  \/ "fatal" \in Allowed(e.row, e.level) /\ IsFatal(e)
